@@ -352,4 +352,10 @@ pub struct Scenario {
     /// ops[i] during which faults are enabled (empty = all)
     #[serde(default)]
     pub fault_ops: Vec<usize>,
+    /// explicit post step (replay / minimisation): evaluate exactly this crash point
+    #[serde(default)]
+    pub post: Option<crate::crash::CrashPoint>,
+    /// free-form knobs of the check that produced the scenario
+    #[serde(default)]
+    pub knobs: std::collections::BTreeMap<String, i64>,
 }
